@@ -6,7 +6,7 @@ Nothing in /repo or /verif/evidence is touched; the scratch tree is removed afte
 """
 import os, subprocess, sys, shutil
 name, change, props = sys.argv[1], sys.argv[2], sys.argv[3].split(",")
-budget = sys.argv[4] if len(sys.argv) > 4 else "40"
+budget = sys.argv[4] if len(sys.argv) > 4 else ""   # empty: the quick check exactly as registered (fixed run count)
 base = "/tmp/sens_" + name
 shutil.rmtree(base, ignore_errors=True); os.makedirs(base)
 wt = base + "/repo"
@@ -18,9 +18,12 @@ try:
         r = subprocess.run(["git", "-C", wt, "apply", os.path.abspath(change)], capture_output=True, text=True)
     if r.returncode:
         print("SENS %s: change does not apply: %s" % (name, (r.stderr or r.stdout)[:300])); sys.exit(3)
-    env = dict(os.environ, VERIF_REPO=wt, VERIF_BUILD=base + "/build", VERIF_OUT=base + "/out", VERIF_BUDGET_S=budget, VERIF_SHRINK_BUDGET="60", VERIF_JOBS=os.environ.get("VERIF_JOBS", "8"))
+    env = dict(os.environ, VERIF_REPO=wt, VERIF_BUILD=base + "/build", VERIF_OUT=base + "/out", VERIF_SHRINK_BUDGET="60", VERIF_JOBS=os.environ.get("VERIF_JOBS", "8"))
+    if budget:
+        env["VERIF_BUDGET_S"] = budget; env["VERIF_MAXRUNS"] = "0"
+    tier = os.environ.get("SENS_TIER", "quick")
     for prop in props:
-        r = subprocess.run(["/verif/check", prop, "quick"], capture_output=True, text=True, env=env)
+        r = subprocess.run(["/verif/check", prop, tier], capture_output=True, text=True, env=env)
         lines = [l for l in r.stdout.split("\n") if l.startswith(("VIOLATION", "  class=", "KNOWN", "HARNESS", prop + " "))]
         print("SENS %s %s exit=%d" % (name, prop, r.returncode))
         for l in lines[:8]:
